@@ -230,9 +230,4 @@ theorem bestMatch_sep (rules : List (Kind × Regex)) (d : Char) (w' : List Char)
   · have := longest_nofirst r d w' (c :: v) [] h1
     simpa using this
 
--- the JsonQuery table: a word starting with any letter, followed by a blank, a dot or a parenthesis, is cut there
-example : (List.range 26).all (fun i => sepOK jqRules (97 + i) 32 && sepOK jqRules (65 + i) 32
-    && sepOK jqRules (97 + i) 46 && sepOK jqRules (65 + i) 46 && sepOK jqRules (97 + i) 41 && sepOK jqRules (97 + i) 40) = true := by
-  decide +kernel
-
 end Rules
